@@ -187,7 +187,7 @@ def is_const(v, x=None):
 
 
 class State:
-    __slots__ = ("heap", "log", "choices", "bind", "counter", "flags")
+    __slots__ = ("heap", "log", "choices", "bind", "counter", "flags", "memo")
 
     def __init__(self):
         self.heap = {}
@@ -196,6 +196,7 @@ class State:
         self.bind = {}
         self.counter = 0
         self.flags = ()
+        self.memo = frozenset()
 
     def fork(self):
         s = State()
@@ -205,6 +206,7 @@ class State:
         s.bind = dict(self.bind)
         s.counter = self.counter
         s.flags = self.flags
+        s.memo = self.memo
         return s
 
     def effect(self, e):
@@ -350,6 +352,7 @@ class Interp:
         self.step_only = [re.compile(p) for p in step_only] if step_only is not None else None
         # callees that only derive references / read through their `&mut` arguments (no havoc)
         self.pure = [re.compile(p) for p in PURE_CALLEES]
+        self.memo_shared = False
         self.choice_effects = False
 
     # ------------------------------------------------------------------ heap helpers
@@ -1205,10 +1208,25 @@ class Interp:
                         pass
         name = last_segment(path)
         lab = "ret:%s@%s" % (name, site)
+        memo = False
+        if self.memo_shared and not any(isinstance(a, Ref) and a.mut for a in args) and \
+                all(isinstance(a, (Ref, Const)) or a is UNIT for a in args) and args:
+            # option (coverage rules): a callee that only receives shared references to data the explored function
+            # cannot mutate (`&self` of an encoder) is deterministic: the same callee on the same arguments yields
+            # the same value wherever it is called, so its result is labelled by (callee, arguments), not by site
+            import hashlib
+            lab = "ret:%s(%s)" % (name, hashlib.sha1(repr([a.key() for a in args]).encode()).hexdigest()[:10])
+            memo = lab in st2.memo
+            if not memo:
+                st2.memo = st2.memo | {lab}
         if log:
-            st2.effect(("call", path, tuple(desc), self.receiver_label(args, st2), lab))
+            # 6th field: the tracked objects handed to the callee by `&mut` (label paths) - what the callee may mutate
+            muts = tuple((a.addr,) + self.path_names(st2, a.addr, a.path) for a in args
+                         if isinstance(a, Ref) and a.mut and isinstance(a.addr, str))
+            st2.effect(("call", path, tuple(desc), self.receiver_label(args, st2), lab, muts))
         if ret is None:
-            st2.unbind_label(lab)
+            if not memo:
+                st2.unbind_label(lab)
             ret = self.symbolic(getattr(self, "_ret_ty", None), lab)
             if isinstance(ret, Sym):
                 ret = self.fresh_sym(st2, ret.name)
